@@ -115,6 +115,18 @@ RE_BOUND = re.compile(r"^(loop\d+_(?:start|stop)) = (.*)$")
 RE_DO = re.compile(r"^do (\w+) = (.+)$")
 
 
+RE_CALLK = re.compile(r"^call ([a-z_][a-z0-9_]*)\((.*)\)$")
+RE_BUILTIN = re.compile(r"^! built-in: (\w+)")
+RE_IGNORE = [re.compile(p) for p in (
+    r"^\w+ = 0(\.0)?(_\w+)?$",                 # reduction variable initialised
+    r"^global_sum%value = \w+$",
+    r"^\w+ = global_sum%get_sum\(\)$",
+    r"^deallocate ?\(.*\)$",
+)]
+HALO_WORDS = ("halo_exchange", "set_dirty", "set_clean", "is_dirty")
+MARKER = "! call kernels and communication routines"
+
+
 def _split_do(line):
     '''"do v = lo, hi[, step]" -> (v, lo, hi, step) splitting at top-level
     commas only.'''
@@ -134,16 +146,6 @@ def _split_do(line):
     if len(parts) not in (2, 3):
         raise Unsupported("loop header: " + line)
     return m.group(1), parts[0], parts[1], parts[2] if len(parts) == 3 else "1"
-RE_CALLK = re.compile(r"^call ([a-z_][a-z0-9_]*)\((.*)\)$")
-RE_BUILTIN = re.compile(r"^! built-in: (\w+)")
-RE_IGNORE = [re.compile(p) for p in (
-    r"^\w+ = 0(\.0)?(_\w+)?$",                 # reduction variable initialised
-    r"^global_sum%value = \w+$",
-    r"^\w+ = global_sum%get_sum\(\)$",
-    r"^deallocate ?\(.*\)$",
-)]
-HALO_WORDS = ("halo_exchange", "set_dirty", "set_clean", "is_dirty")
-MARKER = "! call kernels and communication routines"
 
 
 def _upper(text):
@@ -246,6 +248,10 @@ def itemise(text, kernels):
             while body[pos[0]].startswith("!$omp"):
                 inner_omp = True
                 pos[0] += 1
+            if RE_IFDIRTY.match(body[pos[0]]) or RE_HEX.match(body[pos[0]]):
+                # (colouring followed by redundant computation puts the new
+                # exchange inside the loop over colours: executed per colour)
+                raise Unsupported("halo exchange inside the loop over colours")
             if not RE_DO.match(body[pos[0]]):
                 raise Unsupported("colours loop body: " + body[pos[0]])
             item = parse_loop(omp or inner_omp)
